@@ -104,11 +104,15 @@ static void mode_cvbr(void){
   /* sliding windows of 3 s */
   int w=(int)(3.0/frame_s); double worst=0; if(w<nfr){ long long s=0; for(int k=0;k<nfr;k++){ s+=lens[k]; if(k>=w) s-=lens[k-w]; if(k>=w-1){ double a=s*8.0/(w*frame_s)-toc_bps; if(a/br>worst) worst=a/br; } } }
   vc_max("cvbr_whole_stream_ratio",avg/br); vc_max("cvbr_3s_window_ratio",worst);
+  if(getenv("C05_DEBUG")&&(avg/br>1.08||worst>1.2)) fprintf(stderr,"cvbr ratio %.3f window %.3f sig=%s fm=%d modes_seen=%d Fs=%d ch=%d br=%d fs=%d app=%d\n",avg/br,worst,vs_names[sk],fm,modes_seen,Fs,ch,br,fs,app);
   /* the MDCT-only tail of a stream with a mode history (forced CELT from 2/3 on): its own average, after 1 s of settling, stays at the target;
      an encoder whose constraint was lost along the history shows here even when the whole-stream average hides it */
   if(mode_switch_at>=0){ int k0=2*nfr/3+(int)(1.0/frame_s); if(nfr-k0>(int)(1.5/frame_s)){ long long s2=0; int allcelt=1; for(int k=k0;k<nfr;k++) s2+=lens[k]; double a=s2*8.0/((nfr-k0)*frame_s)-toc_bps; vc_max("cvbr_celt_tail_ratio",a/br); (void)allcelt; double tolt=atof(vc_arg("tolt","0.08")); if(a/br>1.0+tolt+1276*8.0/((nfr-k0)*frame_s)/br) vc_viol("cvbr:tail-exceeds-target","after a mode history the MDCT-only tail averages %.3f x target %d (Fs=%d ch=%d frame=%d sig=%s)",a/br,br,Fs,ch,fs,vs_names[sk]); vc_count("cvbr_tails_checked",1); } }
   /* reservoir allowance: one maximal packet per window */
   double allow=1276*8.0/3.0/br;
+  /* in hybrid mode the encoder itself switches the MDCT layer's constraint off (OPUS_SET_VBR_CONSTRAINT(0)) and SILK's rate control is a soft target: streams with hybrid
+     packets get the wider calibrated tolerance (a full-scale isolated tone above 13 kHz reaches 1.37; everything else stays below 1.11) */
+  if(modes_seen&2){ tol=atof(vc_arg("tolh","0.55")); tolw=atof(vc_arg("tolwh","0.65")); vc_count("cvbr_streams_with_hybrid_packets",1); }
   if(avg/br>1.0+tol+allow*3.0/secs) vc_viol("cvbr:average-exceeds-target","whole-stream average %.0f b/s = %.3f x target %d (Fs=%d ch=%d app=%d frame=%d sig=%s forced_mode=%d modes_seen=%d)",avg,avg/br,br,Fs,ch,app,fs,vs_names[sk],fm,modes_seen);
   if(worst>1.0+tolw+allow) vc_viol("cvbr:window-exceeds-target","3 s window average = %.3f x target %d (Fs=%d ch=%d frame=%d sig=%s forced_mode=%d)",worst,br,Fs,ch,fs,vs_names[sk],fm);
   vc_count("cvbr_streams",1); vc_sig3(0xCB,(uint64_t)fidx|((uint64_t)sk<<4)|((uint64_t)fm<<9)|((uint64_t)modes_seen<<12),(uint64_t)(Fs/4000)|((uint64_t)ch<<5)|((uint64_t)(br/ch/8000)<<7));
